@@ -201,7 +201,7 @@ func c04Eval(st c04Step, req *fnv1.RunFunctionRequest) (*fnv1.RunFunctionRespons
 		for _, a := range r.Do {
 			switch a.T {
 			case "add":
-				s, _ := structpb.NewStruct(map[string]any{"apiVersion": xwGroup + "/v1", "kind": a.Kind, "spec": map[string]any{"content": a.Content}})
+				s, _ := structpb.NewStruct(map[string]any{"apiVersion": xwAPIVersion(a.Kind, "v1"), "kind": xwKindGVK(a.Kind).Kind, "spec": map[string]any{"content": a.Content}})
 				rd := fnv1.Ready_READY_FALSE
 				if a.Ready {
 					rd = fnv1.Ready_READY_TRUE
@@ -214,7 +214,7 @@ func c04Eval(st c04Step, req *fnv1.RunFunctionRequest) (*fnv1.RunFunctionRespons
 			case "delctx":
 				delete(ctx, a.K)
 			case "require":
-				sel := &fnv1.ResourceSelector{ApiVersion: xwGroup + "/v1", Kind: a.Sel.Kind}
+				sel := &fnv1.ResourceSelector{ApiVersion: xwAPIVersion(a.Sel.Kind, "v1"), Kind: xwKindGVK(a.Sel.Kind).Kind}
 				if a.Sel.Name != "" {
 					sel.Match = &fnv1.ResourceSelector_MatchName{MatchName: a.Sel.Name}
 				} else {
@@ -265,7 +265,7 @@ func c04Resources(m map[string]*fnv1.Resource, withName bool) []c04Res {
 		mm := r.GetResource().AsMap()
 		u := unstructured.Unstructured{Object: mm}
 		c, _, _ := unstructured.NestedFloat64(mm, "spec", "content")
-		e := c04Res{RName: rn, Kind: u.GetKind(), Content: int(c), Ready: r.GetReady() == fnv1.Ready_READY_TRUE}
+		e := c04Res{RName: rn, Kind: xwModelKind(u.GroupVersionKind().Group, u.GetKind()), Content: int(c), Ready: r.GetReady() == fnv1.Ready_READY_TRUE}
 		if withName {
 			e.Name = u.GetName()
 		}
@@ -360,7 +360,7 @@ func c04Run(s c04Scn) (c04Obs, []Mon) {
 		for k, sel := range lastSel {
 			ns := []string{}
 			for _, e := range s.Cluster {
-				if e.Kind != sel.GetKind() {
+				if sgv, _ := schema.ParseGroupVersion(sel.GetApiVersion()); e.Kind != xwModelKind(sgv.Group, sel.GetKind()) {
 					continue
 				}
 				if sel.GetMatchLabels() == nil {
